@@ -24,6 +24,13 @@ type rkind struct {
 	keyInt  bool
 	mutate  []string // statements that mutate the collection mid-loop (guarded by the caller)
 	maporder bool
+	expr       string   // the range expression (default: the collection variable c)
+	nowrap     bool     // never wrap the range expression into tr.X (it must stay a constant / a literal conversion)
+	kconv      string   // format turning the key into an int (default "%s")
+	vconv      string   // format turning the value into an int (default "int(%s)")
+	defineOnly bool     // only ':=' forms (keys / values are not ints)
+	vzero      string   // declaration of v for the '=' forms (default: v := -1, rune(-1) for strings)
+	bodies     []string // restriction of the body shapes (kinds the compiler leaves native must not yield in the body)
 }
 
 func rangeKinds() []rkind {
@@ -48,6 +55,36 @@ func rangeKinds() []rkind {
 		{name: "int", setup: []string{`c := 3`}, keyInt: true, mutate: []string{`c = 10`}},
 		{name: "int:zero", setup: []string{`c := 0`}, keyInt: true},
 		{name: "int:negative", setup: []string{`c := -2`}, keyInt: true},
+		// constants, typed constants and calls as integer range expressions
+		{name: "int:const", setup: []string{`const c = 3`}, keyInt: true, nowrap: true},
+		{name: "int:literal", expr: "3", keyInt: true, nowrap: true},
+		{name: "int:typed-const", setup: []string{`const c uint8 = 3`}, keyInt: true, nowrap: true, kconv: "int(%s)", defineOnly: true},
+		{name: "int:call", setup: []string{`lim := func() int { tr.E(9); return 3 }`}, expr: "lim()", keyInt: true, nowrap: true},
+		// element types the iterators might special-case
+		{name: "map:named-string-key", setup: []string{`type lang string`, `c := map[lang]int{"go": 2}`}, hasVal: true, kconv: "len(%s)", defineOnly: true},
+		{name: "map:named-string-val", setup: []string{`type lang string`, `c := map[int]lang{7: "zig"}`}, hasVal: true, keyInt: true, vconv: "len(%s)", defineOnly: true},
+		{name: "map:any-any", setup: []string{`c := map[any]any{"k": "vv"}`}, hasVal: true, kconv: "len(%s.(string))", vconv: "len(%s.(string))", defineOnly: true},
+		{name: "map:array-key-struct-val", setup: []string{`c := map[[2]int]struct{ a, b int }{{1, 2}: {3, 4}}`}, hasVal: true, kconv: "%s[1]", vconv: "%s.b", defineOnly: true},
+		{name: "slice:named-string-elems", setup: []string{`type lang string`, `c := []lang{"a", "bcd"}`}, hasVal: true, keyInt: true, vconv: "len(%s)", defineOnly: true},
+		{name: "slice:pointer-elems", setup: []string{`x, y := 5, 6`, `c := []*int{&x, nil, &y}`}, hasVal: true, keyInt: true, vconv: "func(p *int) int { if p == nil { return -1 }; return *p }(%s)", defineOnly: true},
+		{name: "chan:of-named-string", setup: []string{`type lang string`, `c := make(chan lang, 2)`, `c <- "ab"`, `c <- ""`, `close(c)`}, kconv: "len(%s)", defineOnly: true},
+		// defined collection types and directional channels (type inference of the iterator constructors)
+		{name: "chan:recv-only", setup: []string{`ch := make(chan int, 3)`, `ch <- 5`, `ch <- 7`, `close(ch)`, `var c <-chan int = ch`}, keyInt: true},
+		{name: "chan:defined-type", setup: []string{`type events chan int`, `c := make(events, 2)`, `c <- 4`, `close(c)`}, keyInt: true},
+		{name: "chan:defined-recv-only-type", setup: []string{`type feed <-chan int`, `ch := make(chan int, 2)`, `ch <- 6`, `ch <- 0`, `close(ch)`, `var c feed = ch`}, keyInt: true},
+		{name: "slice:defined-type", setup: []string{`type ints []int`, `c := ints{11, 22, 33}`}, hasVal: true, keyInt: true, mutate: []string{`c[2] = 99`, `c = c[:1]`}},
+		{name: "map:defined-type", setup: []string{`type dict map[int]int`, `c := dict{5: 50}`}, hasVal: true, keyInt: true, mutate: []string{`delete(c, 5)`}},
+		{name: "array:defined-type", setup: []string{`type triple [3]int`, `c := triple{11, 22, 33}`}, hasVal: true, keyInt: true},
+		{name: "string:defined-type", setup: []string{`type text string`, `c := text("héy")`}, hasVal: true, keyInt: true},
+		{name: "int:defined-type", setup: []string{`type count int`, `c := count(3)`}, keyInt: true, kconv: "int(%s)", defineOnly: true},
+		// literal conversions as range expressions
+		{name: "conv:runes-of-string", setup: []string{`s := "aé€😀z"`}, expr: "[]rune(s)", nowrap: true, hasVal: true, keyInt: true, vzero: "v := rune(-1)"},
+		{name: "conv:bytes-of-string", setup: []string{`s := "aé€z"`}, expr: "[]byte(s)", nowrap: true, hasVal: true, keyInt: true, vzero: "v := byte(1)"},
+		{name: "conv:string-of-bytes", setup: []string{`bs := []byte("h\xc3\xa9y\xff")`}, expr: "string(bs)", nowrap: true, hasVal: true, keyInt: true, vzero: "v := rune(-1)"},
+		// kinds the compiler leaves native (a yield in the loop body is rejected): behaviour must stay Go's
+		{name: "ptr-array", setup: []string{`c := &[3]int{11, 22, 33}`}, hasVal: true, keyInt: true, mutate: []string{`c[2] = 99`, `c = &[3]int{7, 8, 9}`}, bodies: []string{"native", "closure", "native-break-continue"}},
+		{name: "ptr-array:nil", setup: []string{`var c *[3]int`}, hasVal: true, keyInt: true, defineOnly: true, bodies: []string{"native", "closure", "native-break-continue"}},
+		{name: "func:seq2", setup: []string{`c := func(yield func(int, int) bool) {`, `	for i := 0; i < 3; i++ {`, `		tr.E(8)`, `		if !yield(i, i*11) {`, `			return`, `		}`, `	}`, `}`}, hasVal: true, keyInt: true, nowrap: true, bodies: []string{"native", "closure", "native-break-continue"}},
 	}
 }
 
@@ -71,11 +108,17 @@ func rangeHeader(k rkind, form string, rangeExpr string) (decl []string, head st
 		if strings.HasPrefix(k.name, "string") {
 			vz = "v := rune(-1)"
 		}
+		if k.vzero != "" {
+			vz = k.vzero
+		}
 		return []string{"k := -1", vz}, fmt.Sprintf("for k, v = range %s {", rangeExpr), "k", "v"
 	case "_,v=":
 		vz := "v := -1"
 		if strings.HasPrefix(k.name, "string") {
 			vz = "v := rune(-1)"
+		}
+		if k.vzero != "" {
+			vz = k.vzero
 		}
 		return []string{vz}, fmt.Sprintf("for _, v = range %s {", rangeExpr), "", "v"
 	}
@@ -83,20 +126,33 @@ func rangeHeader(k rkind, form string, rangeExpr string) (decl []string, head st
 }
 
 func formsFor(k rkind) []string {
+	if k.defineOnly {
+		if k.hasVal {
+			return []string{"none", "k:=", "k,_:=", "k,v:=", "_,v:="}
+		}
+		return []string{"none", "k:="}
+	}
 	if k.hasVal {
 		return []string{"none", "k:=", "k,_:=", "k,v:=", "_,v:=", "k=", "k,v=", "_,v="}
 	}
 	return []string{"none", "k:=", "k="}
 }
 
-func valueExpr(key, val string) string {
+func valueExpr(k rkind, key, val string) string {
+	kc, vc := k.kconv, k.vconv
+	if kc == "" {
+		kc = "%s"
+	}
+	if vc == "" {
+		vc = "int(%s)"
+	}
 	switch {
 	case key != "" && val != "":
-		return fmt.Sprintf("%s*1000 + int(%s)", key, val)
+		return fmt.Sprintf(kc+"*1000 + "+vc, key, val)
 	case key != "":
-		return key
+		return fmt.Sprintf(kc, key)
 	case val != "":
-		return fmt.Sprintf("int(%s)", val)
+		return fmt.Sprintf(vc, val)
 	}
 	return "1"
 }
@@ -115,20 +171,23 @@ func rangeProgram(k rkind, form, body, mutation string, wrapExpr bool, n int) *e
 		line("%s", s)
 	}
 	rexpr := "c"
-	if wrapExpr {
-		rexpr = "tr.X(1, c)"
+	if k.expr != "" {
+		rexpr = k.expr
+	}
+	if wrapExpr && !k.nowrap {
+		rexpr = "tr.X(1, " + rexpr + ")"
 	}
 	decl, head, key, val := rangeHeader(k, form, rexpr)
 	for _, d := range decl {
 		line("%s", d)
 	}
-	ve := valueExpr(key, val)
+	ve := valueExpr(k, key, val)
 	feats := []string{"range:" + k.name, "range-form:" + form, "range-body:" + body}
 	if mutation != "" {
 		feats = append(feats, "range-mutation")
 	}
 	if strings.HasPrefix(k.name, "array") {
-		if wrapExpr {
+		if wrapExpr && !k.nowrap {
 			feats = append(feats, "range-array-nonaddressable")
 		}
 		if mutation != "" && val != "" {
@@ -196,6 +255,24 @@ func rangeProgram(k rkind, form, body, mutation string, wrapExpr bool, n int) *e
 		ind--
 		line("}")
 		line("YIELD(-1)")
+	case "native-break-continue":
+		// non-yielding loop left by break / continued, decided by the tape
+		line("n, sum := 0, 0")
+		line("%s", head)
+		ind++
+		line("if tr.B(3) {")
+		line("\tn++")
+		line("\tcontinue")
+		line("}")
+		line("sum += tr.V(2, %s)", ve)
+		mut()
+		line("if tr.B(4) {")
+		line("\tbreak")
+		line("}")
+		ind--
+		line("}")
+		line("YIELD(sum)")
+		line("YIELD(-1)")
 	case "nested":
 		line("n := 0")
 		line("%s", head)
@@ -208,6 +285,21 @@ func rangeProgram(k rkind, form, body, mutation string, wrapExpr bool, n int) *e
 		line("\ttr.V(2, w)")
 		line("}")
 		ind--
+		line("}")
+	case "capture":
+		// closures / child generators capture the iteration variables and are used after later iterations:
+		// every iteration has its own variables (Go >= 1.22)
+		line("n := 0")
+		line("var fs []func() int")
+		line("%s", head)
+		ind++
+		line("fs = append(fs, func() int { return %s })", ve)
+		line("YIELD(fs[0]())")
+		mut()
+		ind--
+		line("}")
+		line("for _, f := range fs {")
+		line("\tYIELD(f())")
 		line("}")
 	case "yield-after-loop-var-update":
 		// the body modifies the iteration variables: must not affect the iteration
@@ -251,18 +343,22 @@ func rangeProgram(k rkind, form, body, mutation string, wrapExpr bool, n int) *e
 
 // Range returns the systematic range stream; sample < 1 keeps a PRNG subset.
 func Range(seed int64, keep int, quarantine map[string]bool) (progs []*e1.Program, total int) {
-	bodies := []string{"yield", "native", "closure", "break-continue", "nested", "yield-after-loop-var-update"}
+	allBodies := []string{"yield", "native", "closure", "break-continue", "native-break-continue", "nested", "yield-after-loop-var-update", "capture"}
 	var all []*e1.Program
 	n := 0
 	for _, k := range rangeKinds() {
 		for _, form := range formsFor(k) {
+			bodies := allBodies
+			if k.bodies != nil {
+				bodies = k.bodies
+			}
 			for _, body := range bodies {
 				muts := append([]string{""}, k.mutate...)
 				for mi, m := range muts {
-					if k.maporder && (body == "break-continue" || body == "nested") {
+					if k.maporder && (body == "break-continue" || body == "nested" || body == "native-break-continue" || body == "capture") {
 						continue // order-dependent effects are not comparable for multi-entry maps
 					}
-					wrap := (n+mi)%2 == 0
+					wrap := (n+mi+int(seed&1))%2 == 0
 					p := rangeProgram(k, form, body, m, wrap, n)
 					n++
 					if quarantined(p, quarantine) {
